@@ -68,6 +68,7 @@ type Exec struct {
 	curPos    token.Pos
 	curInstr  ssa.Instruction
 	stack     []*ssa.Function
+	quotSplits int
 
 	globals   map[*ssa.Global]*Value
 	initDone  map[*ssa.Package]bool
@@ -909,6 +910,9 @@ func (e *Exec) binop(op token.Token, t types.Type, x, y Value) Value {
 			if yi.S != nil {
 				nz := e.intCmp(token.NEQ, yi, Int{W: yi.W, Sg: yi.Sg})
 				e.check(nz, "panic", "integer divide by zero", "symbolic divisor may be zero")
+				if r, ok := e.divSym(op, x, yi); ok {
+					return r
+				}
 			}
 		case token.SHL, token.SHR:
 			if yi.Sg && yi.S != nil {
@@ -1574,3 +1578,27 @@ func hasPointers(t types.Type) bool {
 }
 
 var _ = math.MaxInt64
+
+// divSym: x / y and x % y with a symbolic divisor, by case-splitting the quotient (0 <= x, 0 < y required):
+// the candidates q = 0,1,2,... are tried in order with the linear condition x < (q+1)*y, (q+1)*y by repeated addition.
+func (e *Exec) divSym(op token.Token, x, y Int) (Int, bool) {
+	xl, _, xok := x.ival()
+	yl, yh, yok := y.ival()
+	if !(xok && yok && xl >= 0 && yl > 0 && yh < 1<<55) {
+		return Int{}, false
+	}
+	e.quotSplits++
+	prev := Int{W: x.W, Sg: x.Sg}
+	acc := y
+	for q := 0; q < 64; q++ {
+		if e.branch(e.intCmp(token.LSS, x, acc)) {
+			if op == token.QUO {
+				return Int{W: x.W, Sg: x.Sg, C: int64(q)}, true
+			}
+			return e.intBin(token.SUB, x, prev), true
+		}
+		prev = acc
+		acc = e.intBin(token.ADD, acc, y)
+	}
+	panic(unsupported("symbolic division: quotient above 64"))
+}
